@@ -50,3 +50,17 @@ PROPS["C27"] = dict(
     level_text="Enumerated for single ranges up to N, sampled for range sets; each label is compared with an independent formatter.",
     level_note="Trusted base: pyref/labels.py (hand vectors). The written /PageLabels number tree is covered with the document checks (C02/C03) once an independent reader parses it.",
 )
+
+PROPS["C22"] = dict(
+    title="Batch processing reports every job exactly once under any schedule",
+    level="exploration",
+    technique="offline checker over a totally ordered event log recorded at hook sites in the worker pool (exactly-once, order, conservation of counts, 'no operation starts after the first recorded failure'), with the hook sites doubling as seeded failpoints (yield/spin/sleep) and mid-run cancellation injected at the k-th event; logical-step hang monitor for the progress thread",
+    stages=[rust()],
+    rule="each run = (N<=12 jobs, parallelism 1-4, stop_on_error, outcome vector over Ok/Err/Panic, custom and built-in Rotate jobs, progress callback on/off, BatchProcessor::execute or WorkerPool::process_jobs with cancellation at a random event, seeded failpoint plan with two 'hot' sites). Non-trivial: N>=2 and parallelism>=2; distinct = distinct interleaving signature (hash of the order of (site, job) events)",
+    assumptions=["the event log is totally ordered by its own mutex; R5 is judged only from job_start / recorded_fail / op_call order (sound because correct code stores the cancel flag before recorded_fail is logged and loads it after job_start is logged)",
+                 "wall-clock watchdog expiry alone is inconclusive; a hang verdict needs >=200 progress-loop iterations after process_jobs returned"],
+    floors={"quick": {"evaluations": 12_000, "distinct": 3_000, "counters": {"runs_with_recorded_fail_under_stop_on_error": 1000, "runs_with_panicking_job": 150, "runs_with_mid_run_cancellation": 500}},
+            "thorough": {"evaluations": 500_000, "distinct": 100_000, "counters": {"runs_with_recorded_fail_under_stop_on_error": 50000}}},
+    level_text="Sampled schedules: every run's log is decided exactly by the offline checker, but only interleavings that the OS scheduler plus seeded delays produced are covered; their number is reported as distinct interleaving signatures.",
+    level_note="Trusted base: hook placement (H2) and the checker in harness/src/wl/c22.rs. Interleavings inside std's channel/mutex are not controlled.",
+)
